@@ -5,6 +5,7 @@ from .common import Laws, run_subprocess, main_entry, REPO
 from .. import inputs
 
 SPEC = dict(
+    technique='Lean 4 proof that the numeric-path model equals the SymPy-path model (both regenerated from the source) + substitution monitor',
     aux_translators=['__sym__'],
     lean_modules=['SmVerif.Props.C16'],
     groups=['Transforms3d', 'TransformsNd', 'Vectors', 'Quaternions', 'Poses'],
